@@ -197,6 +197,16 @@ void Body(Tape& t, Outcome& o) {
       exclusive_scan(P, a.begin(), a.end(), o2.begin(), uint64_t(0), [](uint64_t x, uint64_t y) { return std::max(x, y); }, uint64_t(0));
       std::exclusive_scan(a.begin(), a.end(), r2.begin(), uint64_t(0), [](uint64_t x, uint64_t y) { return std::max(x, y); });
       if (!Same(o2, r2)) { fail("exclusive_scan-max"); return; }
+      {
+        // an associative but NOT commutative operator ("carry the last non-zero value forward", identity 0):
+        // the order in which TBB joins partial sums matters
+        auto last = [](uint64_t x, uint64_t y) { return y != 0 ? y : x; };
+        std::vector<uint64_t> a3 = a, o3(n), r3(n);
+        for (size_t i = 0; i < a3.size(); ++i) a3[i] = (a3[i] % 3 == 0) ? 0 : a3[i] % 1000 + 1;
+        exclusive_scan(P, a3.begin(), a3.end(), o3.begin(), uint64_t(0), last, uint64_t(0));
+        std::exclusive_scan(a3.begin(), a3.end(), r3.begin(), uint64_t(0), last);
+        if (!Same(o3, r3)) { fail("exclusive_scan-noncommutative"); return; }
+      }
       break;
     }
     case 14: {
